@@ -41,7 +41,7 @@ PARAMS_NAME = "ParamsC03"
 HEADER = ("From Hy Require Import lib.Harness lib.Reader model.C03_UDPRecv model.C03_Speedtest model.C03_Stun corr.C03_Corr.\n"
           "From Coq Require Import ZArith.\nLocal Open Scope N_scope.\n")
 EXTRA_TARGETS = ["corr/C03_Corr.vo"]
-PER_SHARD = 60
+PER_SHARD = 45
 RULE = ("per entry point (26 over 9 packages), generated inside the Go harness from the seed: (i) every length 0..40 of zero/0xff/counting "
         "bytes and the entry point's own boundary list (declared-length fields at 0, 1, limit-1, limit, limit+1, 2^14, 2^30, 2^62-1 in every "
         "varint width incl. non-minimal; fragment id/count pairs; TLS record lengths; STUN attribute lengths; Gecko header fields; punch wire "
@@ -219,7 +219,7 @@ def gen_st(rng, n):
     CH = 65536
     for ci in range(n):
         typ = rng.choice([1, 1, 2, 2, 2, 0, 3, 255])
-        l = rng.choice([0, 1, 5, 100, CH - 1, CH, CH + 1, 2 * CH + 7, 300000])
+        l = rng.choice([0, 1, 5, 100, 100, CH - 1, CH, CH + 1, 2 * CH + 7])
         hdr = bytes([typ]) + l.to_bytes(4, "big")
         if rng.random() < 0.12:
             hdr = hdr[:rng.randrange(len(hdr))]
@@ -229,7 +229,7 @@ def gen_st(rng, n):
             total = max(0, l + rng.choice([0, 0, 0, -1, 1, -l // 2, 50]))
             left = total
             while left > 0:
-                k = min(left, rng.choice([1, 7, 1000, CH - 1, CH, CH + 1, 70000, 200000]))
+                k = min(left, rng.choice([1, 7, 1000, CH - 1, CH, CH + 1, 70000]))
                 a, b = rng.randrange(256), rng.randrange(256)
                 evs.append(ev(common.gen_data(a, b, k), g=[a, b, k]) if k > 16 else ev(common.gen_data(a, b, k)))
                 left -= k
@@ -292,7 +292,7 @@ def gen_realm(rng, n):
 
 def gen_models(rng, tier):
     s = 1 if tier == "quick" else 8
-    return {"srv": gen_srv(rng, 110 * s), "cli": gen_cli(rng, 90 * s), "st": gen_st(rng, 110 * s), "realm": gen_realm(rng, 60 * s)}
+    return {"srv": gen_srv(rng, 110 * s), "cli": gen_cli(rng, 90 * s), "st": gen_st(rng, 80 * s), "realm": gen_realm(rng, 60 * s)}
 
 
 # ------------------------------------------------------------------ Coq terms
@@ -497,7 +497,7 @@ def run_pkg(ctx, spec, cases, tag, trace=False, timeout=1500):
 def fuzz_n(spec, tier):
     n = 3000 if tier == "quick" else 300000
     if spec.get("slow"):
-        n = 1500 if tier == "quick" else 20000
+        n = 700 if tier == "quick" else 20000
     return n
 
 
